@@ -237,7 +237,10 @@ func runAPI(h apiHist) apiOutcome {
 							// a late, repeated end-of-query notification for the connection's PREVIOUS query (what a
 							// delayed iterator Close produces) while this one is in flight: it names another pid
 							// and must leave the running query, its context and the counters alone
-							endQ(slot, prevQ)
+							// (it carries a pid of its own that no connection ever began: the harness's "dup" steps
+							// may legitimately re-use the pid of an ended query on another connection, and
+							// EndQuery(pid) frees that pid)
+							endQ(slot, newCtx(base+uint32(slot), pidSeq.Add(1), "late end of an earlier query"))
 							look(slot)
 						}
 						prevQ = ctx
